@@ -1035,6 +1035,172 @@ def models_corr(which, seed_off):
     return f
 
 
+# ---------------------------------------------------------------------------------------------------
+# C05 / C18
+# ---------------------------------------------------------------------------------------------------
+
+def c05_search(ctx, failing, corr, broken):
+    """Compose the two relations on the real code: g(f(a, b), b) must return a to a few ulps (relative
+    to the larger operand for the subtractive pairs)."""
+    path = os.path.join(ctx.cache, 'inverse_pairs.json')
+    if not os.path.exists(path):
+        return []
+    pairs = json.load(open(path))
+    rng = random.Random(ctx.seed + 5)
+    by_id = ctx.by_id
+    out = []
+    for fmt in (64, 32, 80):
+        stage1, info = [], []
+        for pr in pairs:
+            f, g = by_id.get(pr['f']), by_id.get(pr['g'])
+            if f is None or g is None:
+                continue
+            n = sum(pr['f_sizes'])
+            for _ in range(2 if not broken else 5):
+                vals = [(False, rng.randrange(1 << 20, 1 << 21), rng.randrange(-24, -16)) for _ in range(n)]
+                stage1.append((f['index'], fmt, [co.hex_of(*x) for x in vals], []))
+                info.append((pr, f, g, vals))
+        res1, _, _ = ctx.run_native(stage1)
+        stage2, info2 = [], []
+        for (pr, f, g, vals), r in zip(info, res1):
+            if r is None or r.get('error'):
+                continue
+            fouts = [o['t'] for o in r['outs'] if o['l'].rsplit(':', 1)[1].startswith('num')]
+            foff, acc = [], 0
+            for sz in pr['f_sizes']:
+                foff.append(acc)
+                acc += sz
+            ins = []
+            for name, sz in zip(pr['g_args'], pr['g_sizes']):
+                if name == pr['cls']:
+                    ins += fouts[:sz]
+                else:
+                    fi = pr['f_args'].index(name)
+                    ins += [co.hex_of(*x) for x in vals[foff[fi]:foff[fi] + sz]]
+            if any('nan' in t or 'inf' in t for t in ins):
+                continue
+            stage2.append((g['index'], fmt, ins, []))
+            info2.append((pr, f, g, vals, foff))
+        res2, _, _ = ctx.run_native(stage2)
+        for (pr, f, g, vals, foff), r in zip(info2, res2):
+            if r is None or r.get('error'):
+                continue
+            outs = num_outs(r)
+            j = pr['j']
+            scale = max(_val(v) for v in vals)
+            p = co.FMT[fmt][0]
+            for k, (l, c) in enumerate(outs):
+                want = _val(vals[foff[j] + k])
+                if c in ('nan', 'inf', '-inf'):
+                    continue
+                if abs(co.frac_of_canon(c) - want) > scale * Fraction(1, 2 ** (p - 8)):
+                    out.append({'kind': 'c05-compose', 'pair': pr['g'] + ' ∘ ' + pr['f'], 'fmt': fmt,
+                                'inputs': [co.hex_of(*x) for x in vals], 'recovered': c,
+                                'original': co.canon(want),
+                                'what': '%s(%s(...)) returns %s instead of the original %s' % (
+                                    pr['g'], pr['f'], c, co.canon(want))})
+                    break
+            if len(out) >= 5:
+                return out
+    return out
+
+
+import math  # noqa: E402
+
+
+def _sqrt(x):
+    return math.sqrt(float(x))
+
+
+C18_TABLE = {
+    'DynamicPressure::ctor(MassDensity,Speed)': lambda x: [x[0] * x[1] ** 2 / 2],
+    'DynamicKinematicPressure::ctor(Speed)': lambda x: [x[0] ** 2 / 2],
+    'TotalPressure::ctor(StaticPressure,DynamicPressure)': lambda x: [x[0] + x[1]],
+    'TotalKinematicPressure::ctor(StaticKinematicPressure,DynamicKinematicPressure)': lambda x: [x[0] + x[1]],
+    'SoundSpeed::ctor(IsentropicBulkModulus,MassDensity)': lambda x: [_sqrt(x[0] / x[1])],
+    'SoundSpeed::ctor(HeatCapacityRatio,StaticPressure,MassDensity)': lambda x: [_sqrt(x[0] * x[1] / x[2])],
+    'SoundSpeed::ctor(HeatCapacityRatio,SpecificGasConstant,Temperature)': lambda x: [_sqrt(x[0] * x[1] * x[2])],
+    'MachNumber::ctor(Speed,SoundSpeed)': lambda x: [x[0] / x[1]],
+    'ReynoldsNumber::ctor(MassDensity,Speed,Length,DynamicViscosity)': lambda x: [x[0] * x[1] * x[2] / x[3]],
+    'ReynoldsNumber::ctor(Speed,Length,KinematicViscosity)': lambda x: [x[0] * x[1] / x[2]],
+    'PrandtlNumber::ctor(SpecificIsobaricHeatCapacity,DynamicViscosity,ScalarThermalConductivity)':
+        lambda x: [x[0] * x[1] / x[2]],
+    'PrandtlNumber::ctor(KinematicViscosity,ThermalDiffusivity)': lambda x: [x[0] / x[1]],
+    'HeatCapacityRatio::ctor(IsobaricHeatCapacity,IsochoricHeatCapacity)': lambda x: [x[0] / x[1]],
+    'HeatCapacityRatio::ctor(SpecificIsobaricHeatCapacity,SpecificIsochoricHeatCapacity)': lambda x: [x[0] / x[1]],
+    'GasConstant::ctor(IsobaricHeatCapacity,IsochoricHeatCapacity)': lambda x: [x[0] - x[1]],
+    'SpecificGasConstant::ctor(SpecificIsobaricHeatCapacity,SpecificIsochoricHeatCapacity)': lambda x: [x[0] - x[1]],
+    'ThermalDiffusivity::ctor(ScalarThermalConductivity,MassDensity,SpecificIsobaricHeatCapacity)':
+        lambda x: [x[0] / (x[1] * x[2])],
+    'KinematicViscosity::ctor(DynamicViscosity,MassDensity)': lambda x: [x[0] / x[1]],
+    'Frequency::Period()': lambda x: [1 / x[0]],
+    'Time::Frequency()': lambda x: [1 / x[0]],
+    'Time::ctor(Frequency)': lambda x: [1 / x[0]],
+    'Strain::ctor(DisplacementGradient)': lambda x: [x[0], (x[1] + x[3]) / 2, (x[2] + x[6]) / 2, x[4],
+                                                     (x[5] + x[7]) / 2, x[8]],
+    'StrainRate::ctor(VelocityGradient)': lambda x: [x[0], (x[1] + x[3]) / 2, (x[2] + x[6]) / 2, x[4],
+                                                     (x[5] + x[7]) / 2, x[8]],
+    'ScalarStrain::ctor(LinearThermalExpansionCoefficient,TemperatureDifference)': lambda x: [x[0] * x[1]],
+    'Strain::ctor(VolumetricThermalExpansionCoefficient,TemperatureDifference)':
+        lambda x: [x[0] * x[1] / 3, 0, 0, x[0] * x[1] / 3, 0, x[0] * x[1] / 3],
+    'Stress::VonMises()': lambda x: [_sqrt(((x[0] - x[3]) ** 2 + (x[3] - x[5]) ** 2 + (x[5] - x[0]) ** 2
+                                            + 6 * (x[1] ** 2 + x[2] ** 2 + x[4] ** 2)) / 2)],
+    'Stress::Traction(Direction)': lambda x: _mv(_mat6(x[:6]), x[6:9]),
+    'Traction::ctor(Stress,Direction)': lambda x: _mv(_mat6(x[:6]), x[6:9]),
+    'Stress::ctor(StaticPressure)': lambda x: [-x[0], 0, 0, -x[0], 0, -x[0]],
+}
+
+
+def c18_search(ctx, failing, corr, broken):
+    rng = random.Random(ctx.seed + 18)
+    by_id = ctx.by_id
+    reqs, info = [], []
+    missing = [k for k in C18_TABLE if k not in by_id]
+    out = []
+    for k in missing:
+        out.append({'kind': 'c18-missing', 'entry': k,
+                    'what': 'definitional relation %s is no longer present in the tree' % k,
+                    'failing_input_found': True})
+    for eid, fn in C18_TABLE.items():
+        e = by_id.get(eid)
+        if e is None:
+            continue
+        for fmt in (32, 64, 80):
+            v = e['instances'][0]['fmts'].get(str(fmt))
+            if v is None:
+                continue
+            for _ in range(3):
+                vals = [(False, rng.randrange(1 << 20, 1 << 21), rng.randrange(-24, -16)) for _ in range(v['n_in'])]
+                reqs.append((e['index'], fmt, [co.hex_of(*x) for x in vals], []))
+                info.append((e, fmt, vals, fn))
+    res, _, _ = ctx.run_native(reqs)
+    for (e, fmt, vals, fn), r in zip(info, res):
+        if r is None or r.get('error'):
+            continue
+        xs = [_val(x) for x in vals]
+        want = fn(xs)
+        outs = num_outs(r)
+        if len(want) != len(outs):
+            out.append({'kind': 'c18-arity', 'entry': e['id'], 'what': 'result arity changed'})
+            continue
+        p = co.FMT[fmt][0]
+        scale = max([abs(float(w)) for w in want] + [float(t) for t in xs if e['id'].startswith(('Gas', 'Specific', 'Total'))] + [1e-300])
+        for i, ((l, c), w) in enumerate(zip(outs, want)):
+            if c in ('nan', 'inf', '-inf'):
+                bad = True
+            else:
+                bad = abs(float(co.frac_of_canon(c)) - float(w)) > scale * 2.0 ** -(min(p, 50) - 10)
+            if bad:
+                out.append({'kind': 'c18-formula', 'entry': e['id'], 'fmt': fmt, 'index': e['index'],
+                            'inputs': [co.hex_of(*x) for x in vals], 'component': i, 'native_output': c,
+                            'textbook_value': float(w),
+                            'what': '%s: component %d is %s, the textbook formula gives %r' % (e['id'], i, c, float(w))})
+                break
+        if len(out) >= 5:
+            break
+    return out
+
+
 def quantity_corr(pred, seed_off, per_quick=2, per_thorough=30):
     def f(ctx):
         sel = [e for e in ctx.model if not e['meta']['cls'].startswith(('unit:', 'model:')) and pred(e)]
@@ -1044,6 +1210,30 @@ def quantity_corr(pred, seed_off, per_quick=2, per_thorough=30):
 
 
 SPECS = {
+    'C05': {
+        'id': 'C05', 'level': 'proof',
+        'lean_targets': ['PhQVerif.Audit.C05'],
+        'checkers': [],
+        'correspond': quantity_corr(lambda e: e['meta']['kind'] == 'ctor' and not e['meta'].get('unit')
+                                    and not e['meta'].get('ufmt'), 5, 2, 40),
+        'search': c05_search,
+        'always_search': True,
+        'assumptions': ['exact statement over the reals for all positive inputs in the domain of the composition; '
+                        'the few-ulp clause is checked on the real code (search) and cannot hold relative to a for '
+                        'subtractive pairs (DESIGN.md section 7, C05)',
+                        'inverse pairs derived from constructor signatures by extract/emit_lean.py; per-pair proofs '
+                        'are generated calls of one hand-written tactic, the quantified statement is Props/C05.lean'],
+    },
+    'C18': {
+        'id': 'C18', 'level': 'proof',
+        'lean_targets': ['PhQVerif.Audit.C18'],
+        'checkers': [],
+        'correspond': quantity_corr(lambda e: e['id'] in C18_TABLE, 18, 20, 400),
+        'search': c18_search,
+        'always_search': True, 'audit_all': False,
+        'assumptions': ['textbook formulas typed into Props/C18.lean (and, independently, into props.py for the '
+                        'search on the real code)', 'theorems over the reals; few-ulp clause by correspondence'],
+    },
     'C12': {
         'id': 'C12', 'level': 'proof',
         'lean_targets': ['PhQVerif.Audit.C12'],
